@@ -2,7 +2,7 @@
 """Regenerates MANIFEST.json from the table below (kept in one place so it stays valid)."""
 import json, subprocess
 
-HOOK_COMMITS = ["989b558"]
+HOOK_COMMITS = ["989b558", "be0faaf"]
 
 CLAIMED = {
  "C02": dict(level="exploration", ref="DESIGN §5 C02",
@@ -27,23 +27,23 @@ CLAIMED = {
    technique="deterministic simulation: seeded scheduler over hash-iteration orders + fresh-process replays, digest equality"),
  "C01": dict(level="fault_enumeration", ref="DESIGN §5 C01",
    text="Prover, transport and both verifiers run in one process: an honest uni-STARK or batch-STARK proof is serialized to a tree, every numeric leaf and every public value is corrupted one fault at a time (five fault kinds), and the native verifier and the in-circuit verifier (fixed circuit for value leaves, circuit rebuilt from the received proof for usize leaves) must agree, over a swarm of proof shapes and FRI parameter sets.",
-   note="Native p3 verifiers are the oracle. Panics count as reject here (they are C15's observable). Universes U-KB4/U-BB4, non-ZK, arity-2 MMCS.",
+   note="Native p3 verifiers are the oracle. Panics count as reject here (they are C15's observable). Universes: U-KB4/U-BB4 with TwoAdicFriPcs (six runs in eight), KoalaBear with HidingFriPcs over the plain MMCS and over the salted MerkleTreeHidingMmcs (one run in eight each); arity-2 MMCS.",
    technique="deterministic simulation with message-fault enumeration between prover and two verifier nodes"),
  "C04": dict(level="fault_enumeration", ref="DESIGN §5 C04",
    text="Byzantine prover at matrix depth through hook H2: after an honest run every cell of every active row (and one padding row) of every primitive table is altered, or an operand is altered and the row re-solved locally, or rows are swapped, or a constant is substituted and propagated; the real prover commits and proves the forged matrices and the commitment-binding verifier decides. Ground truth (operation relations over the extension field, constants, agreement of all bus participants) is computed per case; accepted and invalid is a violation. Fault-free control arm first.",
-   note="Primitive tables only (no Horner rows, no non-primitive tables: those are faulted through C06/C12). Release profile so that p3's debug constraint checks do not pre-empt the prover. Known findings (unconstrained Const values) listed in known_findings.json.",
+   note="Primitive tables (Const, Public, ALU incl. single-step and packed HornerAcc rows decoded from the ALU preprocessed matrix); non-primitive tables are faulted through C06/C12. Seven universes (KB/BB D4, BB binomial D5, KB quintic D5, KB D8, KB D1, Goldilocks D2). Horner-specific forges: chain restarted from a forged accumulator, packed row out forged with intermediates solved backwards. Release profile so that p3's debug constraint checks do not pre-empt the prover. Known findings (unconstrained Const values) listed in known_findings.json.",
    technique="deterministic simulation with a byzantine prover: exhaustive single-cell faults on committed matrices, real prove + verify, computed ground truth"),
  "C11": dict(level="fault_enumeration", ref="DESIGN §5 C11",
    text="Table-local half of C04 at the constraint level: the same cell faults on matrices captured from the real prover are evaluated with p3's DebugConstraintBuilder against each table's AIR (no proof), and compared with an independent row-relation evaluator that multiplies in the real extension field; relation fails and constraints vanish, or an honest row fails constraints, is a violation.",
-   note="Const/Public/ALU (add, mul, bool, mul_add) tables at D=4 over BabyBear and KoalaBear with lane and Horner-K swarm; Horner rows and Poseidon/recompose tables not decoded by the oracle. BoolCheck's out = a tie is a bus matter and checked end to end in C04.",
+   note="Const/Public/ALU (add, mul, bool, mul_add, Horner single-step and packed arities 2..K) tables in seven universes (binomial D2/D4/D5/D8, quintic trinomial, base field) with lane and Horner-K swarm; Poseidon/recompose tables not decoded by the oracle. BoolCheck's out = a tie is a bus matter and checked end to end in C04.",
    technique="deterministic simulation: exhaustive cell-fault enumeration on prover matrices with a constraint-level observer and relation oracle"),
  "C07": dict(level="fault_enumeration", ref="DESIGN §5 C07",
    text="Same prover -> transport -> {native, in-circuit} simulation as C01 with the fault space focused on what FRI consumes (commitments, claimed evaluations, the whole opening proof incl. per-step log_arity) and all five fault kinds on every such leaf, over a FRI-oriented shape swarm: mixed matrix heights down to single-row tables, arity schedules up to 2^4 incl. mixed, blow-up 1-3, final polynomial length 1-4, 1-3 queries, PoW bits 0-8, cap height 0-2.",
-   note="FRI is exercised through the PCS-level in-circuit verifier inside the STARK verifiers (challenges derived in-circuit) rather than through verify_fri_circuit with externally supplied challenges. Non-hiding, arity-2 MMCS.",
+   note="Arm (a): FRI through the PCS-level in-circuit verifier inside the STARK verifiers (challenges derived in-circuit), plain and hiding (HidingFriPcs, plain and salted MMCS) universes. Arm (b): verify_fri_circuit with honest externally supplied challenges against native pcs.verify on multi-batch / multi-point / height-0 shapes. Arity-2 MMCS.",
    technique="deterministic simulation with message-fault enumeration focused on the FRI opening proof, parameter swarm"),
  "C08": dict(level="fault_enumeration", ref="DESIGN §5 C08",
    text="MMCS-only pair: native MerkleTreeMmcs commit/open/verify versus in-circuit verify_batch_circuit on seeded matrix batches (equal and mixed heights, widths not aligned to the rate, cap height 0-2); honest openings at every index, then every opened value, sibling digest word, index bit and cap entry word altered one at a time; verdicts must agree.",
-   note="Arity-2 trees, non-hiding, base-field leaves; U-KB4 and U-BB4.",
+   note="Arity-2 trees over KoalaBear/BabyBear width-16 Poseidon2 and arity-4 trees over KoalaBear width-32 Poseidon2 (verify_batch_circuit_arity4); non-hiding, base-field leaves (salted and extension-field leaves are exercised through C01/C07). Known finding (arity-4 cap layer ambiguity) in known_findings.json.",
    technique="deterministic simulation with exhaustive single-fault enumeration on Merkle openings, native verifier as oracle"),
  "C15": dict(level="fault_enumeration", ref="DESIGN §5 C15",
    text="Short, torn and lost parts of a message: every sequence node of the serialized proof is shortened, lengthened, emptied or made ragged, every optional part is flipped, every usize leaf is set to +1, -1, 0 and 2^62; each mutant that still deserializes is handed to the verification-circuit builder in a crash-isolated, memory-limited worker process; a panic or abort is a violation, and if the builder returns Ok the built circuit is run on the mutant and must agree with the native verdict on the mutant (a circuit that checks less than the native verifier is a violation).",
@@ -51,7 +51,7 @@ CLAIMED = {
    technique="deterministic simulation with structural message faults, crash-isolated workers, native verdict as oracle"),
  "C16": dict(level="fault_enumeration", ref="DESIGN §5 C16",
    text="Population of honest proofs (primitive-only; with Poseidon2 and recompose tables) and invalid-trace proofs made by the byzantine prover; the transport sets every metadata field outside `proof` to every value of a small well-formed set (plus option flips, string swaps, list swap/drop/duplicate, sampled pairs) and round-trips every member through postcard and JSON; no faulted invalid-trace proof may be accepted, metadata contradicting the verifier's field parameters must be rejected, round trips must preserve verdict and content.",
-   note="A panicking native verifier counts as a rejection for this property (counted in the evidence, thousands of cases, mostly stark_common / packing fields).",
+   note="Seven universes (KB/BB D4 with non-primitive tables; BB binomial D5, KB quintic D5, KB D8, KB D1, Goldilocks D2 primitive-only); population includes a multiplication-free circuit whose trace is valid under every reduction polynomial. A panicking native verifier counts as a rejection for this property (counted in the evidence, thousands of cases, mostly stark_common / packing fields).",
    technique="deterministic simulation with metadata-fault enumeration and serialization transport"),
  "C17": dict(level="exploration", ref="DESIGN §5 C17",
    text="History-dependent durable state: call histories over a growing pool of proofs and cache slots (NEXT / AGG with cache None, Build, Reuse), every output verified natively and fed to later steps; the reference model is the uncached twin of each call; stale-state faults offer a cache prepared for another circuit, including a near-miss pair with identical size counters; a stale offer must be refused or recomputed (never panic, never an unverifiable proof, never silently the other circuit's verifying data) and later steps must still succeed.",
@@ -62,12 +62,12 @@ CLAIMED = {
    note="No Miri arm: agreement of the two builds is evidence, not proof, of absence of undefined behaviour on the unchecked path.",
    technique="deterministic simulation with input-fault enumeration on twin build configurations, crash-isolated workers"),
  "C05": dict(level="exploration", ref="DESIGN §5 C05",
-   text="Stateful component driven through seeded operation histories and compared step by step with a small executable reference model (the native DuplexChallenger) in six configurations, recompose table on/off, seeded hash order; a failing history is minimised to a few operations.",
+   text="Stateful component driven through seeded operation histories and compared step by step with a small executable reference model (the native DuplexChallenger) in seven configurations (incl. the base-field challenger inside the KoalaBear quintic circuit), recompose table on/off, seeded hash order; a failing history is minimised to a few operations.",
    note="p3_challenger::DuplexChallenger is the reference model; observed values are public inputs so the builder cannot fold them.",
    technique="deterministic simulation: seeded operation histories vs executable reference model"),
  "C06": dict(level="fault_enumeration", ref="DESIGN §5 C06",
-   text="Byzantine prover at witness-generation depth: the permutation closure deviates on one call in its non-exposed (capacity) or exposed (rate) output lanes, or a decomposition hint deviates; the rest of the run is honest, the forged traces go through the real prover and verifier; an accepted proof whose sampled challenges differ from the native transcript is a violation. A fault-free control arm runs first.",
-   note="U-KB4/U-BB4 extension-degree challenger with Poseidon2 and recompose tables. Known findings (capacity deviation accepted) are listed in known_findings.json.",
+   text="Byzantine prover at witness-generation depth: the permutation closure deviates on one call in its non-exposed (capacity) or exposed (rate) output lanes, or a decomposition hint deviates, or (hook H3) one limb of the private, not witness-fed part of a permutation's input state (zero padding, chained rate / capacity) is altered; the rest of the run is honest, the forged traces go through the real prover and verifier; an accepted proof whose sampled challenges differ from the native transcript is a violation. A fault-free control arm runs first.",
+   note="U-KB4/U-BB4 extension-degree challenger and the base-field (D=1) challenger inside the KoalaBear quintic circuit, with Poseidon2 and recompose tables; every sampled wire is read by an ALU row so that its run-time value is a committed cell. Known findings (capacity deviation accepted in D=4; sample_ext unbound in the quintic configuration) are listed in known_findings.json.",
    technique="deterministic simulation with a byzantine prover (deviating permutation / hints), real prove + verify"),
  "C12": dict(level="fault_enumeration", ref="DESIGN §5 C12",
    text="Byzantine hint executors: binary decomposition emitting the bits of x + p, extension decomposition moving mass between coefficients, inside gadget circuits and challenger histories; forged traces are proven and verified; an accepted proof with a non-canonical decomposition is a violation.",
